@@ -53,7 +53,7 @@ RULE = (
 )
 
 NBSP = "\u00a0"
-SCRATCH_ROOT = Path(os.environ.get("C12_TMPDIR", "/tmp/agents/c12/tmp"))
+SCRATCH_ROOT = Path(os.environ.get("C12_TMPDIR") or (vcore.WORK / "c12tmp"))
 
 
 # --------------------------------------------------------------------------- implementation runs
